@@ -85,11 +85,10 @@ Proof. exact run_shape. Qed.
 Print Assumptions C20_total_shape.
 
 (* the full statement is false of today's code: {"context_window":{"context_window_size":100},
-   "transcript_path":true} closes stdout under the interpreter (confirmed on /repo: empty stdout,
-   exit status 120 / 1) *)
-Theorem C20_total_refuted : exists inp, stdout_hazard inp = true /\
-  exit_ok (run_quiet true inp) = false /\ out (run_quiet true inp) = [].
-Proof. exact (ex_intro _ hazard_input (conj eq_refl total_refuted)). Qed.
+   "transcript_path":true} closes stdout under the interpreter: nothing is printed (confirmed on /repo:
+   empty stdout; exit status 120 or 1, occasionally 0 - the status is not modelled) *)
+Theorem C20_total_refuted : exists inp, stdout_hazard inp = true /\ out (run_quiet true inp) = [].
+Proof. exact (ex_intro _ hazard_input (conj eq_refl (proj2 total_refuted))). Qed.
 Print Assumptions C20_total_refuted.
 
 (* the entry point as it was before the guard (F18): {"workspace":{"current_dir":5}} escapes *)
